@@ -5,7 +5,10 @@
    history identifier and index / indices).  Every operation names its destination register,
    so a script can overwrite a variable the way a training loop does.
    One step = one public API call; a panicking call leaves the state unchanged (all the
-   assertions of the operators run before the first append).
+   assertions of the operators run before the first append) - with ONE exception: `impl Sum for
+   Record` (TSum) is a loop whose same-list assertion sits inside the loop body, so a sum that
+   panics at its k-th record has already appended the partial sums of the first k - 1 records
+   and those entries stay on the list (no register is written).
    Executable definitions only. *)
 From Coq Require Import List Arith Bool ZArith.
 From EasyML Require Import Base.Sx Model.Num Model.Tape Model.Container.
@@ -52,7 +55,8 @@ Inductive tm_op : Type :=
 | TDerivs (a elem : nat)                                           (* try_derivatives / derivatives_for *)
 | TClear (t : nat)                                                 (* WengertList::clear *)
 | TReset (a : nat)                                                 (* Record::reset / container reset *)
-| TResetAll (t : nat).                                             (* reset of every live object of list t *)
+| TResetAll (t : nat)                                              (* reset of every live object of list t *)
+| TSum (dst : nat) (rs : list nat).                                (* registers.into_iter().sum::<Record<T>>() *)
 
 Inductive tm_val : Type :=
 | VUnit
@@ -123,6 +127,71 @@ Definition as_cont {A} (r : outcome (A * cont)) : outcome (A * obj) := omap (fun
 (* an operand register that is empty (its producer panicked) or holds the wrong kind of object:
    the step is skipped and reported as such *)
 Definition skipped (st : state) : option (state * outcome tm_val) := Some (st, Err (SZ 9%Z)).
+
+(* ---- impl Sum for Record (record_operations.rs, `impl<'a, T> Sum for Record<'a, T>`).
+   One iteration of the loop: the four-arm match on the histories of the running total and the
+   next record (every derivative is T::one(); the same-list assertion is in the fourth arm only) *)
+Definition sum_step (t : tape) (total next : rec) : outcome (tape * rec) :=
+  let z := nadd ops (r_num total) (r_num next) in
+  match r_hist total, r_hist next with
+  | None, None => Ok (t, mkRec z None 0)
+  | Some h, None =>
+      let '(t', i) := append_unary ops t (r_idx total) (none_ ops) in Ok (t', mkRec z (Some h) i)
+  | None, Some h =>
+      let '(t', i) := append_unary ops t (r_idx next) (none_ ops) in Ok (t', mkRec z (Some h) i)
+  | Some h, Some _ =>
+      if negb (same_list (r_hist total) (r_hist next)) then Panic else
+      let '(t', i) := append_binary t (r_idx total) (none_ ops) (r_idx next) (none_ ops) in
+      Ok (t', mkRec z (Some h) i)
+  end.
+
+(* the loop: returns the tape WITH everything appended so far, also when an iteration panics *)
+Fixpoint sum_fold (t : tape) (total : rec) (rs : list rec) : tape * outcome rec :=
+  match rs with
+  | [] => (t, Ok total)
+  | next :: rest =>
+      match sum_step t total next with
+      | Ok (t1, s) => sum_fold t1 s rest
+      | Err e => (t, Err e)
+      | Panic => (t, Panic)
+      end
+  end.
+
+(* the list every append of the loop goes to: the list of the first record that has one (the
+   total takes its history from there and keeps it) *)
+Definition sum_hist (xs : list rec) : hist := fold_right (fun x h => first_hist (r_hist x) h) None xs.
+
+(* the records held by a list of registers (None: a register is empty or holds a container) *)
+Fixpoint get_recs (st : state) (rs : list nat) : option (list rec) :=
+  match rs with
+  | [] => Some []
+  | a :: r =>
+      match get st a, get_recs st r with
+      | ORec x, Some l => Some (x :: l)
+      | _, _ => None
+      end
+  end.
+
+(* total = Record::zero(); the fold runs on the list named by sum_hist; whatever it appended
+   stays there *)
+Definition sum_on (st : state) (xs : list rec) : option (state * outcome rec) :=
+  match sum_hist xs with
+  | None => Some (st, snd (sum_fold [] (rec_constant (nzero ops)) xs))
+  | Some t =>
+      match tape_of st t with
+      | None => None
+      | Some tp =>
+          let p := sum_fold tp (rec_constant (nzero ops)) xs in Some (set_tape st t (fst p), snd p)
+      end
+  end.
+
+Definition sum_finish (dst : nat) (r : option (state * outcome rec)) : option (state * outcome tm_val) :=
+  match r with
+  | None => None
+  | Some (st1, Ok z) => Some (put st1 dst (ORec z), Ok (VRec z))
+  | Some (st1, Err e) => Some (st1, Err e)
+  | Some (st1, Panic) => Some (st1, Panic)
+  end.
 
 Definition step (st : state) (o : tm_op) : option (state * outcome tm_val) :=
   match o with
@@ -216,6 +285,11 @@ Definition step (st : state) (o : tm_op) : option (state * outcome tm_val) :=
       | Some tp =>
           let '(tp', os, idx) := reset_all tp t (regs st) in
           Some (mkState (set_nth [] (tapes st) t tp') os, Ok (VIdx idx))
+      end
+  | TSum dst rs =>
+      match get_recs st rs with
+      | None => skipped st
+      | Some xs => sum_finish dst (sum_on st xs)
       end
   end.
 
